@@ -199,7 +199,7 @@ fn parse_string(input: &str, span: Span) -> Result<String, Error> {
             b'\'' => '\'',
             b'"' => '"',
             b'\r' | b'\n' => {
-                rem = rem.trim_start();
+                rem = rem.trim_start_matches([' ', '\t', '\n', '\r']);
                 continue;
             }
             _ => return Err(make_err(rem, "invalid escape")),
